@@ -18,6 +18,8 @@ import (
 	host "github.com/cosmos/ibc-go/v10/modules/core/24-host"
 	ibctesting "github.com/cosmos/ibc-go/v10/testing"
 
+	abcitypes "github.com/cometbft/cometbft/abci/types"
+
 	providertypes "github.com/cosmos/interchain-security/v7/x/ccv/provider/types"
 	ccvtypes "github.com/cosmos/interchain-security/v7/x/ccv/types"
 )
@@ -198,7 +200,26 @@ func (w *World) buildTx(c *Chain, a map[string]any) (*TxSpec, error) {
 	case "CreateValidator":
 		v := gets(a, "v")
 		tx.Signer = w.opOf(v)
-		key := w.N.Keys[gets(a, "key")]
+		if tx.Signer == nil {
+			return nil, fmt.Errorf("no operator for %s", v)
+		}
+		kn := gets(a, "key")
+		if _, ok := w.N.Keys[kn]; !ok {
+			var idx int
+			fmt.Sscanf(kn, "pk%d", &idx)
+			w.N.addKey(newConsKey(kn, "pkey", idx))
+		}
+		key := w.N.Keys[kn]
+		if _, exists := w.N.ValByOp[tx.Signer.ValAddr().String()]; exists {
+			return nil, fmt.Errorf("validator %s exists", v)
+		}
+		w.pendingVals = append(w.pendingVals, pendingVal{name: v, op: tx.Signer.ValAddr().String(), key: kn})
+		w.N.ValByOp[tx.Signer.ValAddr().String()] = v
+		if ck := fmt.Sprintf("%x", []byte(key.Addr())); w.N.ValByCons[ck] == "" {
+			w.N.ValByCons[ck] = v
+		}
+		w.N.ValNames = append(w.N.ValNames, v)
+		w.ValKey[v] = kn
 		pkAny, err := codectypes.NewAnyWithValue(key.SDKPub())
 		if err != nil {
 			return nil, err
@@ -346,6 +367,11 @@ func (w *World) relayRecvTx(dst *Chain, a map[string]any) (*TxSpec, error) {
 	}
 	tx.Args = map[string]any{"c": srcOrDstName(src, dst), "n": len(batch), "port": port}
 	w.markReceived(src, dst, port, ch, batch)
+	tx.OnResult = func(code uint32) {
+		if code != 0 {
+			w.unmarkReceived(src, dst, port, ch, batch)
+		}
+	}
 	return tx, nil
 }
 
@@ -391,7 +417,75 @@ func (w *World) relayAckTx(dst *Chain, a map[string]any) (*TxSpec, error) {
 	}
 	tx.Args = map[string]any{"c": srcOrDstName(dst, other), "n": len(batch), "port": port}
 	w.markAcked(dst, port, ch, batch)
+	tx.OnResult = func(code uint32) {
+		if code != 0 {
+			k := chanKey(dst.Name, port, ch)
+			w.net.acks[k] = append(append([]*Packet{}, batch...), w.net.acks[k]...)
+		}
+	}
 	return tx, nil
+}
+
+// timeoutTx builds MsgTimeout on the provider for the oldest undelivered VSC packet to consumer `name`,
+// if its timeout has passed on the consumer chain.
+func (w *World) timeoutTx(name string) (*TxSpec, error) {
+	c, lk := w.Chains[name], w.Links[name]
+	if c == nil || lk == nil || lk.PChan == "" || c.Halted {
+		return nil, fmt.Errorf("no link")
+	}
+	k := chanKey("p", ccvtypes.ProviderPortID, lk.PChan)
+	q := w.net.pkts[k]
+	if len(q) == 0 {
+		return nil, fmt.Errorf("nothing in flight")
+	}
+	pk := q[0]
+	if uint64(c.LatestCommittedHeader.GetTime().UnixNano()) < pk.P.TimeoutTimestamp {
+		return nil, fmt.Errorf("not timed out")
+	}
+	rel := w.acct("rel4")
+	c.ProduceBlock(nil, 5, nil)
+	key := host.NextSequenceRecvKey(pk.P.DestinationPort, pk.P.DestinationChannel)
+	proof, ph := c.QueryProof(key)
+	next, _ := c.App.GetIBCKeeper().ChannelKeeper.GetNextSequenceRecv(c.GetContext(), pk.P.DestinationPort, pk.P.DestinationChannel)
+	msgs := w.withUpdate(w.P, lk.PClient, c, rel, channeltypes.NewMsgTimeout(pk.P, next, proof, ph, rel.Addr().String()))
+	tx := &TxSpec{Kind: "Timeout", Args: map[string]any{"c": name}, Signer: rel, Msgs: msgs}
+	tx.OnResult = func(code uint32) {
+		if code == 0 {
+			w.net.pkts[k] = w.net.pkts[k][1:]
+		}
+	}
+	return tx, nil
+}
+
+// ForgeSlash makes the (malicious) consumer chain commit a slash packet of its choosing: the packet is sent through
+// the consumer's channel keeper outside any transaction, as a compromised consumer binary could.
+func (w *World) ForgeSlash(name, key string, vscID int64, inf string, power int64) error {
+	c, lk := w.Chains[name], w.Links[name]
+	if c == nil || lk == nil || lk.CChan == "" || c.Halted {
+		return fmt.Errorf("no channel")
+	}
+	k, ok := w.N.Keys[key]
+	if !ok {
+		return fmt.Errorf("unknown key")
+	}
+	infraction := stakingtypes.Infraction_INFRACTION_DOWNTIME
+	if inf == "doublesign" {
+		infraction = stakingtypes.Infraction_INFRACTION_DOUBLE_SIGN
+	}
+	sp := ccvtypes.NewSlashPacketData(abcitypes.Validator{Address: k.Addr(), Power: power}, uint64(vscID), infraction)
+	data := ccvtypes.ConsumerPacketData{Type: ccvtypes.SlashPacket, Data: &ccvtypes.ConsumerPacketData_SlashPacketData{SlashPacketData: sp}}
+	ctx := c.GetContext()
+	timeout := uint64(ctx.BlockTime().Add(24 * time.Hour).UnixNano())
+	seq, err := c.App.GetIBCKeeper().ChannelKeeper.SendPacket(ctx, ccvtypes.ConsumerPortID, lk.CChan, clienttypes.Height{}, timeout, data.GetBytes())
+	if err != nil {
+		return err
+	}
+	ch, _ := c.App.GetIBCKeeper().ChannelKeeper.GetChannel(ctx, ccvtypes.ConsumerPortID, lk.CChan)
+	pkt := channeltypes.NewPacket(data.GetBytes(), seq, ccvtypes.ConsumerPortID, lk.CChan, ccvtypes.ProviderPortID, ch.Counterparty.ChannelId, clienttypes.Height{}, timeout)
+	kk := chanKey(c.Name, ccvtypes.ConsumerPortID, lk.CChan)
+	w.net.pkts[kk] = append(w.net.pkts[kk], &Packet{P: pkt, Src: c.Name, SentAt: c.App.LastBlockHeight() + 1})
+	w.rec.emit(c.Name, "Forge", map[string]any{"key": key, "id": vscID, "inf": inf}, nil, nil)
+	return nil
 }
 
 // Block executes a block step with abstract txs; txs that cannot be built are skipped (recorded as such).
@@ -401,7 +495,21 @@ func (w *World) Block(chain string, dt int64, absent []string, actions ...map[st
 		return &BlockResult{Err: "no chain " + chain}
 	}
 	var txs []TxSpec
+	// environment precondition: the provider's validator set never becomes empty (CometBFT cannot run otherwise)
+	live := 99
+	if c.IsProv {
+		live = w.providerLive()
+		if live <= 2 {
+			absent = nil
+		}
+	}
 	for _, a := range actions {
+		if live <= 2 {
+			switch gets(a, "a") {
+			case "Undelegate", "Redelegate", "RelayTo":
+				continue
+			}
+		}
 		switch gets(a, "a") {
 		case "RelayTo":
 			// provider-bound packets and non-batched deliveries: one packet per transaction
@@ -433,6 +541,32 @@ func (w *World) Block(chain string, dt int64, absent []string, actions ...map[st
 				txs = append(txs, *tx)
 			}
 			continue
+		case "TimeoutTo":
+			if tx, err := w.timeoutTx(gets(a, "c")); err == nil {
+				txs = append(txs, *tx)
+			}
+			continue
+		case "UpdateClient":
+			// keep the light client of the counterparty alive
+			name := gets(a, "c")
+			if !c.IsProv {
+				name = c.Name
+			}
+			lk, other := w.Links[name], w.Chains[name]
+			if c.IsProv && (lk == nil || other == nil) || !c.IsProv && lk == nil {
+				continue
+			}
+			client, src := lk.PClient, other
+			if !c.IsProv {
+				client, src = lk.CClient, w.P
+			}
+			if src.Halted || !w.needsUpdate(c, client, src) {
+				continue
+			}
+			if m, err := w.updateClientMsg(c, client, src, w.acct("rel3")); err == nil {
+				txs = append(txs, TxSpec{Kind: "UpdateClient", Args: map[string]any{"c": name}, Signer: w.acct("rel3"), Msgs: []sdk.Msg{m}})
+			}
+			continue
 		}
 		tx, err := w.buildTx(c, a)
 		if err != nil {
@@ -445,6 +579,22 @@ func (w *World) Block(chain string, dt int64, absent []string, actions ...map[st
 		ab[k] = true
 	}
 	return c.ProduceBlock(txs, dt, ab)
+}
+
+// providerLive counts bonded, unjailed provider validators.
+func (w *World) providerLive() int {
+	ctx := w.P.GetContext()
+	vals, err := w.P.PApp.StakingKeeper.GetBondedValidatorsByPower(ctx)
+	if err != nil {
+		return 0
+	}
+	n := 0
+	for _, v := range vals {
+		if !v.Jailed {
+			n++
+		}
+	}
+	return n
 }
 
 // GovExec executes governance-authority messages the way x/gov does when a proposal passes: through the message
@@ -488,7 +638,8 @@ func (w *World) GovExec(actions ...map[string]any) {
 			args[k] = v
 		}
 		args["gov"] = true
-		w.rec.emit("p", "Tx:"+tx.Kind, args, map[string]any{"code": code, "log": trunc(logmsg, 160)}, w.projectProvider(c, c.GetContext()))
+		pctx, _ := c.GetContext().CacheContext()
+		w.rec.emit("p", "Tx:"+tx.Kind, args, map[string]any{"code": code, "log": trunc(logmsg, 160)}, w.projectProvider(c, pctx))
 	}
 }
 
@@ -506,7 +657,7 @@ func (w *World) StartConsumer(name string) *Chain {
 var connVersion = connectiontypes.GetCompatibleVersions()[0]
 
 func (w *World) oneTx(c *Chain, kind string, signer *Account, msgs ...sdk.Msg) (*TxResult, *BlockResult) {
-	br := c.ProduceBlock([]TxSpec{{Kind: kind, Args: map[string]any{}, Signer: signer, Msgs: msgs}}, 5, nil)
+	br := c.ProduceBlock([]TxSpec{{Kind: kind, Args: map[string]any{"c": w.hsConsumer}, Signer: signer, Msgs: msgs}}, 5, nil)
 	if br.Err != "" || len(br.Txs) == 0 {
 		return &TxResult{Code: 999, Log: br.Err}, br
 	}
@@ -527,6 +678,7 @@ func prefixOf() commitmenttypes.MerklePrefix { return commitmenttypes.NewMerkleP
 
 // Connect runs the connection handshake consumer(A) <-> provider(B) on the clients recorded in the link.
 func (w *World) Connect(name string) error {
+	w.hsConsumer = name
 	c, p, lk := w.Chains[name], w.P, w.Links[name]
 	rel := w.acct("rel1")
 	// A: ConnOpenInit
@@ -589,6 +741,7 @@ func (w *World) defaultChanCfg(name string) ChanCfg {
 
 // OpenChannel runs the four channel handshake steps consumer(A) -> provider(B); returns the step that failed, if any.
 func (w *World) OpenChannel(name string, cfg ChanCfg) (string, error) {
+	w.hsConsumer = name
 	c, p, lk := w.Chains[name], w.P, w.Links[name]
 	rel := w.acct("rel1")
 	r, _ := w.oneTx(c, "ChanOpenInit", rel, channeltypes.NewMsgChannelOpenInit(cfg.APort, cfg.Version, cfg.Order, []string{cfg.AConn}, cfg.BPort, rel.Addr().String()))
